@@ -3,7 +3,10 @@
 
   Model: `SalsaVerif.Model.Cycle`.  All model functions are total (structural recursion), so a
   request never hangs in the model; `PanicClass.outOfFuel` is the model's only artificial
-  outcome (see `Proofs`/the NOT YET PROVED note).
+  outcome and `c14_total` shows it is unreachable for well-formed programs.
+
+  PROVED: `c14_panics`, `c14_cycle_origin`, `c14_propagates_*`, `c14_self_call_partial`,
+  `c14_total`, `c14_state_ok`, `c14_recovers`, `c14_panic_nodes_not_poisoned`.
 
   NOT YET PROVED (intended full statements):
   * `c14_panics` (global, forward form): "if during a request a `panic`-strategy node is fetched
@@ -267,7 +270,7 @@ theorem c14_state_ok (P : Prog) (env : Nat → Nat) (db db' : Db) (j : Nat) (c :
     that returns a value returns the reference value (`lfp`), exactly as from scratch
     (for programs without `FallbackImmediate` nodes; = `c12_lfp_history`). -/
 theorem c14_recovers (P : Prog) (env : Nat → Nat) (hNF : NoFallback P) (js : List Nat)
-    (j v k : Nat) (h : ((C12.gets P env Db.empty js).get P env j).1 = .value v k) :
+    (j v k : Nat) (h : ((gets P env Db.empty js).get P env j).1 = .value v k) :
     v = lfp P env j :=
   C12.c12_lfp_history P env hNF js j v k h
 
